@@ -272,6 +272,19 @@ func isConstantText(info *types.Info, e ast.Expr) bool {
 			}
 			return true
 		}
+		// the textual form of a number or duration: <numeric>.String(), strconv.Format*/Itoa/Quote* of numerics
+		if fn := astx.Callee(info, x); fn != nil {
+			if se, ok := ast.Unparen(x.Fun).(*ast.SelectorExpr); ok && fn.Name() == "String" && len(x.Args) == 0 {
+				if tv, ok := info.Types[se.X]; ok {
+					if b, ok := tv.Type.Underlying().(*types.Basic); ok && b.Info()&types.IsNumeric != 0 {
+						return true
+					}
+				}
+			}
+			if fn.Pkg() != nil && fn.Pkg().Path() == "strconv" && (strings.HasPrefix(fn.Name(), "Format") || fn.Name() == "Itoa") {
+				return true
+			}
+		}
 	case *ast.BinaryExpr:
 		return x.Op == token.ADD && isConstantText(info, x.X) && isConstantText(info, x.Y)
 	}
